@@ -234,7 +234,9 @@ def dispatch_agree(ctx: Ctx):
         raise AnalysisError("DISPATCH-AGREE: SVD_FUNS vanished")
     seen = []
     pairs = []  # (key, selected function name | None, node)
-    for n in ast.walk(f.node):
+    from ..inline import inlined
+
+    for n in ast.walk(inlined(ctx.repo, f)):  # the selection may live in a private helper
         if isinstance(n, ast.If) and isinstance(n.test, ast.Compare) and len(n.test.ops) == 1 and isinstance(n.test.ops[0], ast.Eq):
             l, r = n.test.left, n.test.comparators[0]
             if isinstance(l, ast.Constant):
@@ -382,17 +384,28 @@ def nonneg_option(ctx: Ctx):
     # svd_interface hands out exactly that pair
     g = repo.func(S + "svd_interface")
     ok = False
-    for s_ in own_scope_nodes(g.node):
-        if isinstance(s_, ast.If) and "non_negative" in src(s_.test):
-            for b in s_.body:
-                if isinstance(b, ast.Assign) and isinstance(b.value, ast.Call) and (getattr(b.value.func, "id", None) == "make_svd_non_negative" or getattr(b.value.func, "attr", None) == "make_svd_non_negative"):
-                    tg = b.targets[0]
-                    if isinstance(tg, ast.Tuple) and [src(e) for e in tg.elts] == ["U", "V"]:
-                        # nothing rebinds U / V between this statement and the return
-                        later = [n for n in g.node.body if n.lineno > s_.lineno]
-                        rebinding = [n for n in later for x in ast.walk(n) if isinstance(x, ast.Assign) and any(isinstance(t, ast.Name) and t.id in ("U", "V") for tt in x.targets for t in ast.walk(tt))]
-                        rets = [n for n in later if isinstance(n, ast.Return)]
-                        ok = not rebinding and len(rets) == 1 and isinstance(rets[0].value, ast.Tuple) and [src(e) for e in rets[0].value.elts] == ["U", "S", "V"]
+    nn_assigns = [b_ for b_ in own_scope_nodes(g.node) if isinstance(b_, ast.Assign) and isinstance(b_.value, ast.Call) and _cn(b_.value) == "make_svd_non_negative"]
+    if len(nn_assigns) == 1 and isinstance(nn_assigns[0].targets[0], ast.Tuple) and len(nn_assigns[0].targets[0].elts) == 2 and all(isinstance(e, ast.Name) for e in nn_assigns[0].targets[0].elts):
+        b_ = nn_assigns[0]
+        w_name, h_name = (e.id for e in b_.targets[0].elts)
+        # guarded by the option: inside `if <test on non_negative>` or after `if <test on non_negative>: return`
+        guarded = False
+        par = {}
+        for n_ in ast.walk(g.node):
+            for c_ in ast.iter_child_nodes(n_):
+                par[id(c_)] = n_
+        p_ = par.get(id(b_))
+        while p_ is not None and p_ is not g.node:
+            if isinstance(p_, ast.If) and "non_negative" in src(p_.test):
+                guarded = True
+            p_ = par.get(id(p_))
+        for s_ in g.node.body:
+            if isinstance(s_, ast.If) and "non_negative" in src(s_.test) and s_.lineno < b_.lineno and s_.body and isinstance(s_.body[-1], ast.Return) and not s_.orelse:
+                guarded = True
+        later = [n_ for n_ in ast.walk(g.node) if isinstance(n_, ast.stmt) and n_.lineno > b_.lineno]
+        rebinding = [n_ for n_ in later if isinstance(n_, (ast.Assign, ast.AugAssign)) and any(isinstance(t_, ast.Name) and t_.id in (w_name, h_name) for tt in (n_.targets if isinstance(n_, ast.Assign) else [n_.target]) for t_ in ast.walk(tt))]
+        rets = [n_ for n_ in later if isinstance(n_, ast.Return)]
+        ok = guarded and not rebinding and len(rets) == 1 and isinstance(rets[0].value, ast.Tuple) and len(rets[0].value.elts) == 3 and src(rets[0].value.elts[0]) == w_name and src(rets[0].value.elts[2]) == h_name
     res.instance("NONNEG-OPTION", "svd_interface: the non-negative pair is what is returned", sample={"ok": ok})
     if not ok:
         ctx.finding("NONNEG-OPTION", g, g.node, "svd_interface no longer returns exactly the pair produced by make_svd_non_negative when the non-negative option is on (it is re-bound, post-processed or not requested)", construct="svd_interface: non-negative pair not returned as is")
